@@ -372,6 +372,10 @@ func cmdCheck(args []string) int {
 	}
 	for n, k := range uks {
 		h := unknown[k]
+		if n >= maxReported {
+			fmt.Printf("violation (not replayed, %d more distinct): rule=%s key=%q instance=%s\n    %s\n", len(uks)-n, h.v.Rule, h.v.Key, h.inst.Name, firstLine(h.v.Msg))
+			continue
+		}
 		rp := vp.Replay{Property: id, Check: id, Tier: tier, Instance: h.inst.Name, Index: h.inst.Index, Rule: h.v.Rule, Key: h.v.Key, Msg: h.v.Msg, Choices: h.v.Choices, Input: h.v.Input, Blocked: h.v.Blocked}
 		path := filepath.Join(verifDir, "evidence", "replays", fmt.Sprintf("%s-%d.json", id, n+1))
 		// confirm by replaying the recorded schedule (twice, identical logs) before reporting
@@ -512,6 +516,9 @@ func (p *prefixWriter) Write(b []byte) (int, error) {
 	}
 	return len(b), nil
 }
+
+// maxReported bounds the number of violations that are replayed and reported with a VIOLATION line.
+const maxReported = 4
 
 type provider struct {
 	bin   string
